@@ -51,6 +51,11 @@ TYPE_RULES = [
     ("map-key-record-in-nested-map", True, "!map {keys: string, values: !map {keys: HPlain, values: int}}", ""),
     ("map-key-map", True, "!map {keys: !map {keys: string, values: int}, values: int}", ""),
     ("union-alias-of-vector-case-needs-tag", True, "[HVecAlias, !vector {items: float}]", ""),
+    # the key type only becomes known through the type arguments given to a generic map / a generic record holding one
+    ("map-key-record-via-generic-alias", True, "HMapOf<HPlain>", ""),
+    ("map-key-enum-via-generic-alias", True, "HMapOf<HEnum>", ""),
+    ("map-key-record-via-generic-record", True, "HHolds<HPlain>", ""),
+    ("map-key-vector-via-nested-generics", True, "HWrap<HHolds<HVecAlias>>", ""),
 ]
 HELPERS = """
 HWrap<T>: !record
@@ -63,6 +68,10 @@ HIntAlias: int
 HVecAlias: !vector {items: int}
 HEnum: !enum
   values: [ea, eb]
+HMapOf<K>: !map {keys: K, values: int}
+HHolds<T>: !record
+  fields:
+    inner: HMapOf<T>
 """
 
 # --- definition-level constructs: whole definitions that violate one rule ---------------------------------
@@ -104,6 +113,14 @@ DEF_RULES = [
     ("computed-index-scalar", True, "R1: !record\n  fields:\n    a: int\n  computedFields:\n    c: a[0]\n"),
     ("computed-bad-dimension-name", True, "R1: !record\n  fields:\n    a: 'int[x, y]'\n  computedFields:\n    c: size(a, 'z')\n"),
     ("computed-too-many-indices", True, "R1: !record\n  fields:\n    a: 'int[x, y]'\n  computedFields:\n    c: a[0, 1, 2]\n"),
+    ("computed-negated-string", True, "R1: !record\n  fields:\n    s: string\n  computedFields:\n    c: -s\n"),
+    ("computed-negated-bool", True, "R1: !record\n  fields:\n    b: bool\n  computedFields:\n    c: -b\n"),
+    ("computed-negated-vector", True, "R1: !record\n  fields:\n    v: int*\n  computedFields:\n    c: -v\n"),
+    ("computed-cast-string-to-date", True, "R1: !record\n  fields:\n    s: string\n  computedFields:\n    c: s as date\n"),
+    ("computed-cast-bool-to-string", True, "R1: !record\n  fields:\n    b: bool\n  computedFields:\n    c: b as string\n"),
+    ("computed-string-plus-string", True, "R1: !record\n  fields:\n    s: string\n    t: string\n  computedFields:\n    c: s + t\n"),
+    ("computed-bool-times-bool", True, "R1: !record\n  fields:\n    s: bool\n    t: bool\n  computedFields:\n    c: s * t\n"),
+    ("computed-date-minus-date-in-switch", True, "R1: !record\n  fields:\n    d: date\n    o: int?\n  computedFields:\n    c:\n      !switch o:\n        int: d - d\n        _: d - d\n"),
     ("computed-bad-cast", True, "R1: !record\n  fields:\n    a: int*\n  computedFields:\n    c: a as string\n"),
     ("computed-switch-not-exhaustive", True, "R1: !record\n  fields:\n    u: [int, string]\n  computedFields:\n    c:\n      !switch u:\n        int: 1\n"),
     ("computed-switch-impossible-case", True, "R1: !record\n  fields:\n    u: [int, string]\n  computedFields:\n    c:\n      !switch u:\n        int: 1\n        string: 2\n        float: 3\n"),
